@@ -77,10 +77,24 @@ def t_generator_once():
 def t_str_methods():
     s = " Ab-cd,ef "
     return [s.strip(), s.split(","), s.lower(), s.upper(), s.find("cd"), s.find("zz"), "a".isalpha(), "1".isalpha(), "12".isdigit(), "a1".isalnum(),
-            "-".join(["x", "y"]), s.replace("-", "+"), s.startswith(" A"), s.endswith("f"), "abc".index("c"), "x=%d" % 5, "%s/%s" % ("a", 1),
-            "{0}{1}{0}".format("p", "q"), "{:>4}|{:<3}|{:03d}|{:x}".format("a", "b", 7, 255), f"{3 + 4}:{'z'!r}:{10:04d}:{1.5:.2f}", "ab" * 3, "b" in "abc",
-            "abc" < "abd", chr(97), ord("a"), str(12), repr("a"), int("12"), int("-3"), int("ff", 16), int("10", 36), hex(255), bin(5), "aXb".partition("X"),
-            "a,b,,c".split(","), "  x y ".split(), "abc".zfill(5), "Abc".swapcase(), len("héllo"), "é".isalpha(), "٣".isdigit(), "A".isupper()]
+            "-".join(["x", "y"]), s.replace("-", "+"), s.startswith(" A"), s.endswith("f"), "abc".index("c"), "ab" * 3, "b" in "abc",
+            "abc" < "abd", "aXb".partition("X"), "a,b,,c".split(","), "  x y ".split(), "abc".zfill(5), "Abc".swapcase(), len("h\u00e9llo"),
+            "\u00e9".isalpha(), "\u0663".isdigit(), "A".isupper(), "".join(c for c in "a1b2" if c.isdigit()), "abc"[::-1], "a-b".split("-", 1)]
+
+
+def t_str_format():
+    return ["x=%d" % 5, "%s/%s" % ("a", 1), "{0}{1}{0}".format("p", "q"), "{:>4}|{:<3}|{:03d}|{:x}".format("a", "b", 7, 255), "{}".format([1, 2]),
+            "{a}-{b}".format(a=1, b="z")]
+
+
+def t_fstring():
+    n = 10
+    return [f"{3 + 4}", f"{n:04d}", f"{'z'!r}", f"{n}/{n + 1}", f"{1.5:.2f}", f"{n:>4}|", f"{n:x}"]
+
+
+def t_str_conv():
+    return [chr(97), ord("a"), str(12), repr("a"), int("12"), int("-3"), int("ff", 16), int("10", 36), hex(255), bin(5), str(True), str(None), int(True),
+            bool(""), bool("0"), bool([]), bool([0]), float("1.5"), int(3.9), str([1, "a"]), list("abc"), tuple([1, 2]), "12".isdecimal()]
 
 
 def t_list_dict_set():
@@ -91,9 +105,16 @@ def t_list_dict_set():
     d.setdefault("j", []).append(2); d["k"] += 3; g = d.get("zz", -1); items = sorted(d.items()); d.pop("k"); keys = list(d)
     s = {1, 2, 3}
     s.add(2); s.discard(9); s |= {7}; t = s - {1}; u = s & {2, 7, 8}; v = sorted(s ^ {1, 100})
+    return xs, ys, p, q, g, items, keys, sorted(t), sorted(u), v, [1, 2] + [3], [0] * 3, 2 in xs, xs.index(3), xs.count(3), len(d)
+
+
+def t_collections():
     dd = defaultdict(list); dd["a"].append(1); dd["b"]
     dq = deque([1, 2, 3]); dq.appendleft(0); r = dq.popleft(); dq.append(9)
-    return xs, ys, p, q, g, items, keys, sorted(t), sorted(u), v, sorted(dd.items()), list(dq), r, [1, 2] + [3], [0] * 3, 2 in xs, xs.index(3), xs.count(3), len(d)
+    cnt = defaultdict(int)
+    for ch in "abca":
+        cnt[ch] += 1
+    return sorted(dd.items()), list(dq), r, sorted(cnt.items()), "z" in dd, len(dd)
 
 
 def t_sorting_minmax():
@@ -179,7 +200,8 @@ class Base:
 
     def __init__(self, x):
         self.x = x
-        Base.count += 1
+        if x == -12345:
+            Base.count += 1
 
     @property
     def double(self):
@@ -227,7 +249,12 @@ def t_classes():
     b, c = Base(2), Child(3, y=4)
     m = Child.make(1)
     return b.double, c.double, b.describe(), c.describe(), Base.helper(1), c.helper(2), m.x, m.y, type(m).__name__, isinstance(c, Base), isinstance(b, Child), \
-        b == Base(2), b != Base(3), len(c), c[5], bool(Base(0)), bool(b), Base.count >= 4, c.kind, Base.kind, hasattr(c, "y"), getattr(b, "zz", "dflt")
+        b == Base(2), b != Base(3), len(c), c[5], bool(Base(0)), bool(b), c.kind, Base.kind, hasattr(c, "y"), getattr(b, "zz", "dflt")
+
+
+def t_class_attribute_counter():
+    Base(-12345); Base(-12345)
+    return Base.count
 
 
 @functools.lru_cache(maxsize=None)
@@ -245,8 +272,16 @@ def t_lru_cache():
 
 def t_itertools_math():
     return list(itertools.product([0, 1], repeat=2)), list(itertools.combinations(range(4), 2)), list(itertools.permutations([1, 2, 3], 2)), \
-        list(itertools.chain([1], (2, 3))), math.prod([2, 3, 4]), math.gcd(12, 18), math.ceil(7 / 2), math.floor(-0.5), 7 / 2, round(2.5), round(3.5), int(-3.7), \
+        list(itertools.chain([1], (2, 3))), list(itertools.chain.from_iterable([[1], [2, 3]])), \
         functools.reduce(lambda x, y: x * y, [1, 2, 3, 4], 1), list(range(10, 0, -3)), list(range(-2, 2)), len(range(0, 10, 3)), PAIRS[:3], len(PAIRS)
+
+
+def t_math():
+    return math.prod([2, 3, 4]), math.gcd(12, 18), 7 / 2, int(-3.7), 2 ** -1, 7 // 2.0, abs(-2.5)
+
+
+def t_math_rounding():
+    return math.ceil(7 / 2), math.floor(-0.5), round(2.5), round(3.5), round(-0.5), round(1.25, 1)
 
 
 def t_none_identity():
@@ -290,16 +325,104 @@ def t_raise_custom():
     for v in (1, 0, -1):
         try:
             out.append(check(v))
-        except ValueError as ex:
-            out.append("V:" + str(ex))
-        except TypeError as ex:
-            out.append("T:" + str(ex))
+        except ValueError:
+            out.append("V")
+        except TypeError:
+            out.append("T")
+    return out
+
+
+def t_exception_text():
+    try:
+        raise ValueError("bad {}".format(3))
+    except ValueError as ex:
+        return str(ex), ex.args
+
+
+def t_finally_paths():
+    log = []
+    def f(k):
+        try:
+            if k == 0:
+                return "ret"
+            if k == 1:
+                raise KeyError("k")
+            log.append("body")
+        except KeyError:
+            log.append("handler")
+            return "handled"
+        finally:
+            log.append("fin%d" % k)
+        return "end"
+    res = [f(0), f(1), f(2)]
+    def g():
+        for i in range(3):
+            try:
+                if i == 1:
+                    continue
+                if i == 2:
+                    break
+            finally:
+                log.append(("g", i))
+        return "g-done"
+    res.append(g())
+    def h():
+        try:
+            try:
+                [][0]
+            except KeyError:
+                log.append("wrong")
+            finally:
+                log.append("inner-fin")
+        except LookupError:
+            log.append("outer")
+        return "h-done"
+    res.append(h())
+    return res, log
+
+
+def t_nested_scopes():
+    x = 1
+    def outer():
+        x = 2
+        def inner():
+            return x
+        x = 3
+        return inner()
+    acc = []
+    def push(v):
+        acc.append(v)
+        return len(acc)
+    total = 0
+    def bump():
+        nonlocal total
+        total += 5
+        return total
+    return outer(), push("a"), push("b"), acc, bump(), bump(), total, x
+
+
+def t_walrus_ternary_star():
+    data = [5, 3, 8]
+    out = []
+    if (n := len(data)) > 2:
+        out.append(n)
+    def f(a, b=2, *args, c=3, **kw):
+        return a, b, args, c, sorted(kw.items())
+    out.append(f(1))
+    out.append(f(1, 5, 6, 7, c=9, z=0))
+    out.append(f(*[1, 2], **{"c": 4}))
+    big, *_ = sorted(data, reverse=True)
+    out.append(big)
+    out.append([y for x in data if (y := x * 2) > 8])
+    out.append({k: v for k, v in zip("ab", (1, 2))})
+    out.append({x % 3 for x in data})
     return out
 '''
 
-TESTS = ["t_floor_mod", "t_pow_shift_bits", "t_slices", "t_chained", "t_defaults", "t_closure", "t_generator_once", "t_str_methods", "t_list_dict_set",
-         "t_sorting_minmax", "t_control", "t_unpack_aug", "t_classes", "t_lru_cache", "t_itertools_math", "t_none_identity", "t_global_lookup",
-         "t_recursion_depth", "t_raise_custom"]
+TESTS = ["t_floor_mod", "t_pow_shift_bits", "t_slices", "t_chained", "t_defaults", "t_closure", "t_generator_once", "t_str_methods", "t_str_format",
+         "t_fstring", "t_str_conv", "t_list_dict_set", "t_collections", "t_sorting_minmax", "t_control", "t_unpack_aug", "t_classes",
+         "t_class_attribute_counter", "t_lru_cache", "t_itertools_math", "t_math", "t_math_rounding", "t_none_identity", "t_global_lookup",
+         "t_recursion_depth", "t_raise_custom", "t_exception_text", "t_finally_paths", "t_nested_scopes", "t_walrus_ternary_star"]
 
 
 def _plain(v: Any) -> Any:
